@@ -80,3 +80,20 @@ Example ex_scan :
   | _ => false
   end = true.
 Proof. vm_compute. reflexivity. Qed.
+
+(* md_first_match_layouts: a decoded message conforms to the layout list of its edition *)
+Example ex_conforms :
+  match decode_message ex_dd (Some sig_BUFR) false false ex_bytes with
+  | Ok m => conforms (m_sections m) (message_layout 3 true)
+  | Err _ => False
+  end.
+Proof. vm_compute. repeat constructor. Qed.
+
+(* info_independent_of_data_content: ex_bytes = 46 octets up to the header of section 4
+   inclusive, then 2 octets of content, then 7777 *)
+Example ex_content_hypotheses :
+  match decode_message ex_dd (Some sig_BUFR) true false ex_bytes with
+  | Ok m => (sections_nbits (filter lt4 (m_sections m)) + 32 <=? 8 * (length (firstn 50 ex_bytes) - 0))%nat
+  | Err _ => false
+  end = true /\ find_sig sig_BUFR (firstn 50 ex_bytes) = Some 0%nat.
+Proof. split; vm_compute; reflexivity. Qed.
